@@ -52,6 +52,22 @@ CLAIMED = {
          "store-provenance rule (clamp barrier with configured bounds), consumer-argument agreement rule, closed-gate rule over locksets and dominating facts",
          "Decides that every published bitrate is the output of a clamp with the configured bounds, that pacer/callback/getter see the same value, and that feeding feedback after Close cannot send on a closed pipe. The floating-point estimator stages are not analysed; the clamp absorbs them.",
          "clampInt(x, lo, hi) returns a value in [lo,hi] for lo ≤ hi (its three-line body is not re-verified); field tables frozen"),
+ "C07": ("DESIGN.md §3 P1",
+         "path counting of the accounting call and of the counter updates (exactly once per forwarded packet), value-shape rule on the increments, lockset/atomicity rows",
+         "Decides the counter clause only: each forwarded packet increments packetCount by one and octetCount by len(payload) exactly once, under the stream mutex. The RTP/NTP timestamp clause is numerical and not decided.",
+         "counter fields and the accounting function are named in a table"),
+ "C14": ("DESIGN.md §3 M1, P2, B",
+         "index-agreement rule on coverage-table accesses, path counting of the repair sequence number, injection-after-forward rule, retention taint",
+         "Decides structural necessary clauses (mask names what was combined; repair SN advances once per packet; media first and unmodified; FEC computed from copies). XOR recoverability and bit layouts are algebra over byte values and are not decided.",
+         "encoder function, table and counter fields named in a table"),
+ "C17": ("DESIGN.md §3 Q",
+         "queue-API agreement rule, per-iteration path counting of downstream writes, accept-implies-enqueued rule, charge-before-send dominance rule, retention taint and pooled-copy bounds",
+         "Decides once/in-order/intact at the level of structure: FIFO API discipline, exactly one write per dequeued packet, success only after enqueue, every released packet charged to the limiter, queued copies. The numeric rate envelope is not decided.",
+         "pacer types, queue fields and limiter field named in a table"),
+ "C19": ("DESIGN.md §3 S",
+         "dominating-condition rule (SSRC test) on every counter store, exhaustive-loop rule on compound walks, closure rules and lockset/atomicity rows of the stats package",
+         "Decides that counters only move for traffic addressed to the recorder's SSRC, that every packet of a compound is visited, that each packet reaches the recorder exactly once and updates are atomic. The WebRTC-stats formulas are numerical and not decided.",
+         "counter structs are the *StreamStats types of pkg/stats; guard polarity is not checked (any test against r.ssrc counts)"),
 }
 
 NA = {
